@@ -3,6 +3,7 @@ import Driver.C16
 import Driver.C02
 import Driver.C05
 import Driver.C06
+import Driver.C07
 import Driver.C08
 import Driver.C11
 import Driver.C12
@@ -22,6 +23,7 @@ def dispatch (op : String) (args : Json) : Option Json :=
   | "ping" => some (.obj [("pong", .bool true)])
   | "c16.ttl" => some (c16ttl args)
   | "c06.validate" => some (c06validate args)
+  | "c07.taint" => some (c07taint args)
   | "c08.validate" => some (c08validate args)
   | "c08.legacy" => some (c08legacy args)
   | "c08.skip" => some (c08skip args)
